@@ -175,7 +175,14 @@ func runC01R8(c *Ctx, sessionHandlers map[*ssa.Function]bool, gas *ssa.Function)
 // strings.SplitN(·, ":", 2) / strings.Cut / an index of the first ':' — never a full strings.Split whose part
 // count rejects a correct password that contains a colon (the converse clause: a credential that verifies is served).
 func runBasicSplitRule(c *Ctx, rule string) {
-	fn := c.Fn(rule, "pkg/middleware.getBasicAuthCredentials")
+	runFirstColonRule(c, rule, "pkg/middleware.getBasicAuthCredentials")
+}
+
+// runFirstColonRule: the named function divides its "a:b" input at the FIRST colon only; the second part may itself
+// contain colons (a password; the application redirect carried in the OAuth state, e.g. "https://app/..." or
+// "/reports?from=08:30").
+func runFirstColonRule(c *Ctx, rule, name string) {
+	fn := c.Fn(rule, name)
 	if fn == nil {
 		return
 	}
@@ -201,18 +208,18 @@ func runBasicSplitRule(c *Ctx, rule string) {
 				if k, ok := ConstInt(cc.Args[2]); ok && k == 2 {
 					c.ok(rule, key, in, "strings.SplitN(token, \":\", 2)")
 				} else {
-					c.R.Bad(rule, key, c.pos(in), "the credential is split into a number of parts other than two: a password containing ':' is mangled or refused", nil, nil)
+					c.R.Bad(rule, key, c.pos(in), "the value is split into a number of parts other than two: a second part containing ':' is mangled or refused", nil, nil)
 				}
 			case isStd(cc, "strings", "Cut") && sepOK(1), isStd(cc, "strings", "Index") && sepOK(1), isStd(cc, "strings", "IndexByte"), isStd(cc, "strings", "IndexRune"):
 				n++
 				c.ok(rule, key, in, "cut at the first ':'")
 			case isStd(cc, "strings", "Split") && sepOK(1), isStd(cc, "strings", "LastIndex") && sepOK(1), isStd(cc, "strings", "Fields"):
 				n++
-				c.R.Bad(rule, key, c.pos(in), "the credential is split at every ':' (or at the last one): a correct password that contains a colon is refused although it verifies against the htpasswd file", nil, nil)
+				c.R.Bad(rule, key, c.pos(in), "the value is split at every ':' (or at the last one): a correct second part that contains a colon (a password, a redirect such as https://… or /x?t=08:30) is refused", nil, nil)
 			}
 		}
 	}
 	if n == 0 {
-		c.R.Unknown(rule, "first-colon|none", c.P.Pos(fn.Pos()), "getBasicAuthCredentials does not split the decoded token with a recognised first-colon idiom")
+		c.R.Unknown(rule, "first-colon|none", c.P.Pos(fn.Pos()), name+" does not split its input with a recognised first-colon idiom")
 	}
 }
